@@ -630,3 +630,142 @@ Example C09_bridge_unfold : forall T mat_of dens_of (cl : M5.cell T),
   mkCell (mat_of (M5.c_mat cl)) (dens_of (M5.c_rho cl)) (M5.c_imp cl) (M5.c_univ cl)
          (M5.c_fill cl) (M5.c_orig cl).
 Proof. intros. reflexivity. Qed.
+
+(* round 3: the two hypotheses of the theorem above about the returned cell are
+   discharged or weakened.  (i) [live]: C05's fill_phase_spec (C05/Proofs.v, GenOK)
+   says a returned cell keeps the container's importance and universe; a key of
+   fill_keys has universe 0; trcl_phase and inline_cells keep the fields — so the
+   returned cells are live as soon as the CONTAINER has positive importance.
+   (ii) volumes: in the shape C01_cells gives them — a returned cell has a
+   non-virtual volume (carrying its idorigin) or is empty everywhere; the cell
+   containing the point is not empty, so it has one. *)
+Theorem C09_point_composition_written_linked :
+  forall (T surf P : Type) (tr_empty : T -> bool) (teqb : T -> T -> bool)
+         (tr_surf : T -> surf -> surf) (inv : T -> P -> P) (sense : surf -> P -> bool),
+  T4V.Properties.C05.sense_law tr_surf inv sense -> T4V.Properties.C05.key_law tr_empty teqb inv ->
+  forall (mat_of : Z -> string) (dens_of : Z -> option string)
+         fuel cf ifd ifg num den (s0 s1 s2 : M5.state T surf) rs cells3,
+  P5.fresh_ok T surf s0 -> M5.s_cache s0 = [] -> NoDup (map fst (M5.s_cells s0)) ->
+  P5.all_ref_free T surf s0 ->
+  (forall c cl, M5.dget c (M5.s_cells s0) = Some cl -> M5.c_orig cl = []) ->
+  M5.trcl_phase T surf tr_empty teqb tr_surf fuel (map fst (M5.s_cells s0)) s0 = M5.Ok s1 ->
+  M5.fill_phase T surf tr_empty teqb tr_surf fuel cf ifd ifg s1 = M5.Ok (rs, s2) ->
+  M5.inline_cells T fuel num den (M5.s_cells s2) = M5.Ok cells3 ->
+  forall key ks kcl, In (key, ks) (combine (M5.fill_keys (M5.s_cells s0)) rs) ->
+  M5.dget key (M5.s_cells s0) = Some kcl -> (0 < M5.c_imp kcl)%Z ->
+  forall vols g,
+  (forall k, In k ks ->
+     (exists v ncl, In (k, v) vols /\ v_fictive v = false /\
+                    M5.dget k cells3 = Some ncl /\ v_origin v = M5.c_orig ncl) \/
+     (forall q, ~ S5.Den T surf P sense (P5.set_cells T surf s2 cells3) q (M5.TRef k) true)) ->
+  geomcomp vols (bridge_cells T mat_of dens_of cells3) = Ok g ->
+  forall p ch,
+  S5.LocW T surf P tr_empty inv sense s0 (M5.by_universe (M5.s_cells s0)) key p ch true ->
+  exists k lcl z,
+    In k ks /\
+    S5.Den T surf P sense (P5.set_cells T surf s2 cells3) p (M5.TRef k) true /\
+    M5.dget (last ch 0%Z) (M5.s_cells s0) = Some lcl /\
+    int_of_token (mat_of (M5.c_mat lcl)) = Some z /\
+    member g (material_name z (bridge T mat_of dens_of lcl)) k /\
+    (forall l d, comp_names z (bridge_cells T mat_of dens_of cells3) = Ok l ->
+                 dens_normal (bridge_cells T mat_of dens_of cells3) ->
+                 dens_of (M5.c_rho lcl) = Some d ->
+                 In ("m" ++ material_name z (bridge T mat_of dens_of lcl)) l).
+Proof.
+  intros T surf P tr_empty teqb tr_surf inv sense Hs Hk mat_of dens_of.
+  exact (point_composition_written_linked T surf P tr_empty teqb tr_surf inv sense Hs Hk mat_of dens_of).
+Qed.
+Print Assumptions C09_point_composition_written_linked.
+
+(* C09's material-only model of the "treat FILL" loop and C05's full model (with
+   geometry, transformations and caches) AGREE on the material / provenance
+   projection: on the same table (C05's, read through bridge), whenever both
+   return, they return the same number of cells in the same order, with the same
+   provenance head — the leaf of the descent — and, cell by cell, the same
+   material, density and no fill.  (Keys differ: C05 also numbers the
+   transformed copies.)  So C09_provenance_head_is_leaf & co., proved on C09's
+   model, speak about the cells C05's theorems locate points in. *)
+From T4V Require Import C09.LinkC05Models.
+
+Theorem C09_fill_models_agree_linked :
+  forall (T : Type) (mat_of : Z -> string) (dens_of : Z -> option string) (surf P : Type)
+         (tr_empty : T -> bool) (teqb : T -> T -> bool) (tr_surf : T -> surf -> surf)
+         (inv : T -> P -> P) (sense : surf -> P -> bool),
+  (forall t o p, sense (tr_surf t o) p = sense o (inv t p)) ->
+  (forall a b, teqb a b = true -> tr_empty a = tr_empty b /\ forall p, inv a p = inv b p) ->
+  forall fuel cf ifd ifg (s s' : M5.state T surf) rs fuel9 next st' ks,
+  P5.fresh_ok T surf s -> M5.s_cache s = [] ->
+  (forall c cl, M5.dget c (M5.s_cells s) = Some cl -> M5.c_orig cl = []) ->
+  M5.fill_phase T surf tr_empty teqb tr_surf fuel cf ifd ifg s = M5.Ok (rs, s') ->
+  (forall k, lookup k (bridge_cells T mat_of dens_of (M5.s_cells s)) <> None -> (k <= next)%Z) ->
+  treat_fill fuel9 (bridge_cells T mat_of dens_of (M5.s_cells s)) next = Ok (st', ks) ->
+  map (head_of (fst st')) ks = map (head5 T surf s') (List.concat rs) /\
+  Forall2 (fun k k5 => exists c ncl, lookup k (fst st') = Some c /\
+                                     M5.dget k5 (M5.s_cells s') = Some ncl /\
+                                     same_cell T mat_of dens_of c ncl)
+          ks (List.concat rs).
+Proof.
+  intros T mat_of dens_of surf P tr_empty teqb tr_surf inv sense H1 H2.
+  exact (fill_models_agree T mat_of dens_of surf P tr_empty teqb tr_surf inv sense H1 H2).
+Qed.
+Print Assumptions C09_fill_models_agree_linked.
+
+Example C09_same_cell_unfold : forall T mat_of dens_of (c : cell) (ncl : M5.cell T),
+  same_cell T mat_of dens_of c ncl <->
+  c_mat c = mat_of (M5.c_mat ncl) /\ c_dens c = dens_of (M5.c_rho ncl) /\
+  c_fill c = None /\ M5.c_fill ncl = None.
+Proof. intros. reflexivity. Qed.
+
+(* ------------------------------------------------------------------------ *)
+(* LINK with C06 (lattices), through C05                                      *)
+(* ------------------------------------------------------------------------ *)
+From Coq Require Import Reals.
+From T4V Require C06.Model C06.LinkC05.
+From T4V Require Import C09.LinkC06.
+
+(* C06/LinkC05.v: [develop_state] = the stateful half of develop_lattice over
+   C05's table (T := 12 reals or empty, P := R^3); its [develop_state_spec] says
+   every element cell keeps the lattice cell's material, density and provenance.
+   With C05_pot_fill_located and C09_geomcomp_name: for a point located in the
+   developed table along ch below a filled cell, the volume containing it is on
+   the GEOMCOMP line of the last cell of ch, and when that cell is an element
+   cell of the lattice (array entry = the lattice's own universe) the line is
+   the one named after the LATTICE CELL's material number and density — the
+   analogue of C09_lattice_leaf_material on C05's / C06's models.  Which lattice
+   index a point falls in is C06_lattice_end_to_end_linked's statement. *)
+Theorem C09_lattice_element_material_linked :
+  forall (surf : Type) (teqb : list R -> list R -> bool) (tr_surf : list R -> surf -> surf)
+         (inv : list R -> @M6.vec R -> @M6.vec R) (sense : surf -> @M6.vec R -> bool),
+  (forall t o p, sense (tr_surf t o) p = sense o (inv t p)) ->
+  (forall a b, teqb a b = true -> @M6.is_nil R a = @M6.is_nil R b /\ forall p, inv a p = inv b p) ->
+  forall (mat_of : Z -> string) (dens_of : Z -> option string)
+         (fuel cf : nat) (latkey : Z) (lcl : M5.cell (list R)) (elems : list (@M6.new_elem R))
+         (s0 s1 s2 : M5.state (list R) surf) (keys : list Z) (du : list (Z * list Z))
+         (ifd ifg : bool) (key : Z) (ks : list Z),
+  P5.Inv (list R) surf (@M6.vec R) (@M6.is_nil R) inv sense s0 ->
+  M5.dget latkey (M5.s_cells s0) = Some lcl ->
+  Forall (fun e => @M6.is_nil R (M6.ne_trnsf e) = false) elems ->
+  L6.develop_state surf teqb tr_surf fuel latkey elems s0 = M5.Ok (keys, s1) ->
+  (forall c cl, M5.dget c (M5.s_cells s1) = Some cl -> M5.c_orig cl = []) ->
+  (forall u c, In c (M5.du_get u du) -> exists cl, M5.dget c (M5.s_cells s1) = Some cl) ->
+  (exists cl, M5.dget key (M5.s_cells s1) = Some cl) ->
+  M5.pot_fill (list R) surf (@M6.is_nil R) teqb tr_surf fuel cf du ifd ifg key s1 = M5.Ok (ks, s2) ->
+  forall vols g p,
+  (forall k, In k ks -> S5.Den (list R) surf (@M6.vec R) sense s2 p (M5.TRef k) true ->
+     exists v ncl, In (k, v) vols /\ v_fictive v = false /\
+                   M5.dget k (M5.s_cells s2) = Some ncl /\ v_origin v = M5.c_orig ncl) ->
+  geomcomp vols (bridge_cells (list R) mat_of dens_of (M5.s_cells s2)) = Ok g ->
+  forall ch, S5.Located (list R) surf (@M6.vec R) (@M6.is_nil R) inv sense s1 du key p ch ->
+  exists k lf z,
+    In k ks /\ S5.Den (list R) surf (@M6.vec R) sense s2 p (M5.TRef k) true /\
+    M5.dget (last ch 0%Z) (M5.s_cells s1) = Some lf /\
+    int_of_token (mat_of (M5.c_mat lf)) = Some z /\
+    member g (material_name z (bridge (list R) mat_of dens_of lf)) k /\
+    (In (last ch 0%Z) keys ->
+       M5.c_mat lf = M5.c_mat lcl /\ M5.c_rho lf = M5.c_rho lcl /\
+       member g (material_name z (bridge (list R) mat_of dens_of lcl)) k).
+Proof.
+  intros surf teqb tr_surf inv sense H1 H2 mat_of dens_of.
+  exact (lattice_element_material_linked surf teqb tr_surf inv sense H1 H2 mat_of dens_of).
+Qed.
+Print Assumptions C09_lattice_element_material_linked.
